@@ -216,7 +216,8 @@ def run_circuit(c):
     for ins in instrs:
         if type(ins).__name__ == "Create":
             photons += len(ins.modes)
-    cutoff = photons + c.get("extra_cutoff", 1)
+    # piquasso refuses passive gates below cutoff 3 (finding 9 of DESIGN section 5, not this property)
+    cutoff = max(3, photons + c.get("extra_cutoff", 1))
     rec["d"], rec["cutoff"] = d, cutoff
     try:
         sim = pq.PureFockSimulator(d=d, config=pq.Config(cutoff=cutoff))
@@ -239,6 +240,53 @@ def run_circuit(c):
     return rec
 
 
+# --------------------------------------------------------------------------- Qiskit reference
+def qiskit_reference(c):
+    """Exact joint distribution of the Qiskit circuit, computed with qiskit.quantum_info
+    (Statevector.evolve with the circuit's own gate objects; projective measurements and
+    if_else by trajectory enumeration).  Index: bit string x (qubit 0 first); the answers of
+    the measurements are the bits of x at the measured qubits."""
+    from qiskit.quantum_info import Statevector
+
+    qc = build_qiskit(c)
+    n = c["n"]
+    table = []
+    for xi in range(2 ** n):
+        x = [(xi >> q) & 1 for q in range(n)]  # qubit 0 is the least significant bit (all_bits order of the model)
+        sv = Statevector.from_label("0" * n)
+        clbits = {}
+
+        def proj(sv, q, o):
+            data = sv.data.copy()
+            for idx in range(len(data)):
+                if ((idx >> q) & 1) != o:
+                    data[idx] = 0
+            return Statevector(data)
+
+        def run(circ, qmap, cmap, sv):
+            for ins in circ.data:
+                qs = [qmap[circ.find_bit(b).index] for b in ins.qubits]
+                cs = [cmap[circ.find_bit(b).index] for b in ins.clbits]
+                if ins.name == "measure":
+                    o = x[qs[0]]
+                    sv = proj(sv, qs[0], o)
+                    clbits[cs[0]] = o
+                elif ins.name == "if_else":
+                    bit, val = ins.operation.condition
+                    cidx = cmap[circ.find_bit(bit).index]
+                    body = ins.operation.params[0] if clbits.get(cidx, 0) == int(val) else ins.operation.params[1]
+                    if body is not None:
+                        sv = run(body, qs, cs, sv)
+                else:
+                    sv = sv.evolve(ins.operation, qargs=qs)
+            return sv
+
+        sv = run(qc, list(range(n)), list(range(c["ncl"])), sv)
+        idx = sum(x[q] << q for q in range(n))
+        table.append(float(abs(sv.data[idx]) ** 2))
+    return table
+
+
 def main():
     req = json.load(sys.stdin)
     out = {}
@@ -246,6 +294,12 @@ def main():
         out["emitted"], out["refused"] = sentinel_lists()
     if "circuits" in req:
         out["runs"] = [run_circuit(c) for c in req["circuits"]]
+        if req.get("reference"):
+            for c, r in zip(req["circuits"], out["runs"]):
+                try:
+                    r["qiskit"] = qiskit_reference(c)
+                except Exception as e:  # noqa
+                    r["qiskit_error"] = exc_kind(e) + ":" + str(e)[:200]
     if "postproc" in req:
         from piquasso.dual_rail_encoding import get_bosonic_qubit_samples
 
